@@ -37,6 +37,8 @@ func rtKey(tag, i int) (string, bool) {
 		return fmt.Sprintf("F%d", i), true
 	case 1, 2, 9:
 		return fmt.Sprintf("f%d", i), true
+	case 13:
+		return fmt.Sprintf("g%d", i), true
 	}
 	return "", false
 }
@@ -71,6 +73,16 @@ func genRTStruct(t *rapid.T, depth int) *Node {
 		n.C = append(n.C, genRTNode(t, depth+1))
 		n.Tags = append(n.Tags, rapid.SampledFrom([]int{0, 1, 2, 9}).Draw(t, "tag"))
 	}
+	if depth < 3 && rapid.IntRange(0, 4).Draw(t, "squash") == 0 {
+		// one squash-embedded struct; its own fields are named g<i>
+		sq := &Node{K: "struct"}
+		for i, nq := 0, rapid.IntRange(1, 3).Draw(t, "sqfields"); i < nq; i++ {
+			sq.C = append(sq.C, genRTNode(t, depth+2))
+			sq.Tags = append(sq.Tags, 13)
+		}
+		n.C = append(n.C, sq)
+		n.Tags = append(n.Tags, 3)
+	}
 	return n
 }
 
@@ -97,11 +109,16 @@ type rawBuilder struct {
 	sec  [][]byte
 	next int
 	ok   bool
+	// ref, when set, supplies the raw text of a slot (the expansion check puts
+	// ${scheme:name} references there instead of the secret itself)
+	ref func(slot int) string
 }
 
 func (r *rawBuilder) secret() string {
 	s := ""
-	if r.next < len(r.sec) {
+	if r.ref != nil {
+		s = r.ref(r.next)
+	} else if r.next < len(r.sec) {
 		s = string(r.sec[r.next])
 	}
 	r.next++
@@ -133,10 +150,27 @@ func (r *rawBuilder) raw(n *Node) any {
 	case "struct":
 		m := map[string]any{}
 		for i, c := range n.C {
+			if n.Tags[i] == 3 { // squash: the child's keys live in the parent's map
+				sub, ok := r.raw(c).(map[string]any)
+				if !ok || c.K != "struct" {
+					r.ok = false
+					return nil
+				}
+				for k, v := range sub {
+					if _, dup := m[k]; dup {
+						r.ok = false
+					}
+					m[k] = v
+				}
+				continue
+			}
 			k, ok := rtKey(n.Tags[i], i)
 			if !ok {
 				r.ok = false
 				return nil
+			}
+			if _, dup := m[k]; dup {
+				r.ok = false
 			}
 			m[k] = r.raw(c)
 		}
